@@ -31,6 +31,7 @@ META = dict(
 ENT = {'amp;': '&', 'lt;': '<', 'gt;': '>', 'quot;': '"', '#x27;': "'"}
 NAME_START = set('abcdefghijklmnopqrstuvwxyzABCDEFGHIJKLMNOPQRSTUVWXYZ')
 NAME_CHAR = NAME_START | set('0123456789-_')
+RAW_TAGS = ('style', 'script')
 
 class Reject(Exception):
   def __init__(self, pos, why):
@@ -112,6 +113,24 @@ def strict_parse(s, apos_in_attr=False):
           raise Reject(i, 'bad-character-after-attribute')
       else:
         opts.append(an)
+    if tag in RAW_TAGS:       # raw-text element: the body runs to the next '<', which must start the matching closing tag
+      if opts or attrs:
+        raise Reject(i, 'raw-element-with-attributes')
+      j = s.find('<', i)
+      if j < 0:
+        raise Reject(n, 'unclosed-element')
+      body = s[i:j]
+      if j + 1 >= n or s[j + 1] != '/':
+        raise Reject(j, 'markup-inside-raw-element')
+      k = j + 2
+      while k < n and s[k] in NAME_CHAR:
+        k += 1
+      if k >= n or s[k] != '>':
+        raise Reject(k, 'bad-closing-tag')
+      if s[j + 2:k] != tag:
+        raise Reject(j, 'mismatched-closing-tag')
+      kids.append([3, tag, body]); i = k + 1
+      continue
     stack.append((tag, opts, attrs, kids)); kids = []
   if stack:
     raise Reject(n, 'unclosed-element')
@@ -124,6 +143,8 @@ def strict_parse_opt(s):
     return None
 
 def enc_tree(t):
+  if t[0] == 3:
+    return [3, trlib.enc(t[1]), trlib.enc(t[2])]
   if t[0] == 0:
     return [0, trlib.enc(t[1]), [trlib.enc(o) for o in t[2]], [[trlib.enc(a), trlib.enc(v)] for a, v in t[3]], [enc_tree(k) for k in t[4]]]
   return [t[0], trlib.enc(t[1])]
@@ -169,6 +190,10 @@ def tree_events(nodes):
   for t in nodes:
     if t[0] == 1:
       ev.append(('d', t[1]))
+    elif t[0] == 3:
+      ev.append(('s', t[1], []))
+      if t[2]: ev.append(('d', t[2]))
+      ev.append(('e', t[1]))
     else:
       ev.append(('s', t[1].lower(), [(o.lower(), None) for o in t[2]] + [(a.lower(), v) for a, v in t[3]]))
       ev.extend(tree_events(t[4]))
@@ -212,13 +237,15 @@ def pg():
   return pg_
 
 _CLASS_CACHE = {}
-def object_class(name, nfields):
-  """A pg.Object subclass with an arbitrary (possibly hostile) __name__ and identifier field names."""
-  key = (name, nfields)
+def object_class(name, nfields, frozen=False):
+  """A pg.Object subclass with an arbitrary (possibly hostile) __name__ and identifier field names
+  (optionally with a frozen field, which the view hides)."""
+  key = (name, nfields, frozen)
   if key not in _CLASS_CACHE:
     p = pg()
     base = type('C20Base%d' % len(_CLASS_CACHE), (p.Object,), {})
-    p.members([('f%d' % i, p.typing.Any(default=None)) for i in range(nfields)])(base)
+    p.members([('f%d' % i, p.typing.Any(default=None)) for i in range(nfields)]
+              + ([('fz', p.typing.Str().freeze('frozen <b>&"value'))] if frozen else []))(base)
     base.__name__ = name
     base.__qualname__ = name
     _CLASS_CACHE[key] = base
@@ -272,7 +299,7 @@ def gen_value(rng, data, depth, stats=None, sym=False):
       return p.List(items)
     return tuple(items) if k == 'tuple' else items
   cname = data.s('class-name') if rng.random() < 0.6 else rng.choice(['Foo', 'FooBar', 'HTTPServer', 'Tooltip', 'SimpleValue', 'Pyglove', 'x'])
-  cls = object_class(cname, n)
+  cls = object_class(cname, n, frozen=rng.random() < 0.25)
   vals = {}
   for i in range(n):
     vals['f%d' % i] = gen_value(rng, data, depth - 1, stats, True)
@@ -597,6 +624,8 @@ def oracle(value, kw, data, twin=None, presence=True):
     for t in walk(tree):
       if t[0] == 1:
         ntext += len(SENT_RE.findall(t[1]))
+      elif t[0] == 3:     # a <style>/<script> element inside the content: no view writes one there
+        hits.append(('C20/vocabulary/element/%s' % t[1], 'the content contains a <%s> element' % t[1]))
       else:
         bad = ([('element', t[1])] if t[1] not in VOCAB_TAGS else []) + [('option', o) for o in t[2] if o not in VOCAB_OPTS] + [('attribute', a) for a, _ in t[3] if a not in VOCAB_ATTRS]
         for what, nm in bad:
@@ -704,6 +733,8 @@ def oracle_control(spec):
     for t in walk(tree):
       if t[0] == 1:
         n += len(SENT_RE.findall(t[1]))
+      elif t[0] == 3:
+        hits.append(('C20/control-vocabulary/element/%s' % t[1], 'the %s control content contains a <%s> element' % (spec['which'], t[1])))
       else:
         for what, nm in ([('element', t[1])] if t[1] not in CTRL_TAGS else []) + [('option', o) for o in t[2] if o not in VOCAB_OPTS] + [('attribute', a) for a, _ in t[3] if a not in CTRL_ATTRS]:
           hits.append(('C20/control-vocabulary/%s/%s' % (what, nm if not SENT_RE.search(nm) else 'data'), 'the %s control output contains %s %r' % (spec['which'], what, nm)))
@@ -848,6 +879,8 @@ def run(ctx):
   # ---- the Python strict tokenizer against the proved Coq parser (real, mutated and hand-written documents)
   docs = ['', 'a', '<a></a>', '<a>', '</a>', '<a></b>', '<a b></a>', '<a b="c"></a>', '<a b="c" d></a>', '<a b=c></a>', '<a b="c"d></a>', '<a ></a>', '<a  b></a>',
           '&amp;', '&', '&amp', '&#x27;&quot;&lt;&gt;', '&#39;', '&AMP;', 'a>b', 'a"b', "a'b", '<a b="&lt;&quot;"></a>', '<a b="<"></a>', '<a b=">"></a>', "<a b=\"'\"></a>",
+          '<style></style>', '<style>a > b & c "x"</style>', '<style>a<b</style>', '<style>a</script>', '<style a></style>', '<style a="b"></style>', '<script>x</script>y', '<style>x',
+          '<style>x</style', '<style>x<', '<style>x</', '<a><style>q</style></a>', '<styles>x</styles>', '<style>&amp;</style>',
           '<1></1>', '<a-b_c1></a-b_c1>', '<A></a>', '<a/>', '<a></a >', '<!-- x -->', '<![CDATA[x]]>', '<span>k<i></span>', '<span>k<i></i></span>', '<a><b></a></b>', 'x<a>y</a>z']
   short = [o for o in outputs if len(o) < 6000]
   for o in rng.sample(short, min(len(short), ctx.scale(150, 1500))):
